@@ -125,6 +125,9 @@ Definition tcp4_max (hdr : N) : N := field_max 16 - hdr.
 Definition tcp6_repr (hdr v : N) : Prop := fits 32 (hdr + v).
 Definition tcp6_max (hdr : N) : N := field_max 32 - hdr.
 
+(* total encoded size of a list of option elements *)
+Definition nsum (l : list N) : N := fold_right N.add 0 l.
+
 (* ---------------------------------------------------------------- ICMPv6 *)
 (* RFC 4443 2.3 / RFC 8200 8.1: 32-bit upper-layer packet length = 8 octets
    of ICMPv6 header + data *)
@@ -146,6 +149,19 @@ Definition macsec_dec (unmodified : bool) (field : N) : option N :=
   if field =? macsec_unknown then None
   else if unmodified then (if field <? 2 then None else Some (field - 2))
   else Some field.
+
+(* MACsec's set_payload_len has no error: C14 for it reads "the field holds the
+   length when representable, the documented unknown value otherwise, nothing
+   else changes, and the field decodes back to the length" *)
+Definition c14_macsec {H} (r : res vtb unit * H) (u : bool) (v : N)
+           (field wire : H -> N) (decoded : H -> option N) (others_same : H -> Prop) : Prop :=
+  greatest (macsec_repr u) (macsec_max u) /\
+  fst r = Ok tt /\ others_same (snd r) /\
+  (macsec_repr u v -> field (snd r) = macsec_sl u v) /\
+  (~ macsec_repr u v -> field (snd r) = macsec_unknown) /\
+  wire (snd r) = field (snd r) /\
+  decoded (snd r) = macsec_dec u (wire (snd r)) /\
+  (macsec_repr u v -> macsec_sl u v <> macsec_unknown -> decoded (snd r) = Some v).
 
 (* -------------------------------------------------------------------- AH *)
 (* RFC 4302: Payload Len (8 bit) = length of the AH in 32-bit words minus 2;
@@ -169,6 +185,34 @@ Inductive ext_err := ExtTooSmall (n : N) | ExtTooBig (n : N) | ExtUnaligned (n :
 Definition ext_bad (n : N) : ext_err :=
   if n <? ext_min then ExtTooSmall n else if ext_max <? n then ExtTooBig n else ExtUnaligned n.
 
+(* ------------------------------------- lengths of extension header chains *)
+(* length of an AH from its Payload Len field, of a generic extension header
+   from its Hdr Ext Len field; the fragment header has 8 octets (RFC 8200 4.5) *)
+Definition ah_total_len (payload_len : N) : N := (payload_len + 2) * 4.
+Definition ext_total_len (hdr_ext_len : N) : N := (hdr_ext_len + 1) * 8.
+Definition frag_total_len : N := 8.
+
+(* which extension headers a header set carries.  The crate stores for an AH
+   `raw_icv_len` = Payload Len - 1 and for a generic header Hdr Ext Len (u8). *)
+Definition v4exts := option N.                         (* auth: raw_icv_len *)
+Record v6exts := {
+  x_hop : option N; x_dst : option N;
+  x_route : option (N * option N);       (* routing, final destination options *)
+  x_frag : bool; x_auth : option N }.
+Definition olen (f : N -> N) (o : option N) : N := match o with Some l => f l | None => 0 end.
+Definition v4x_len (x : v4exts) : N := olen (fun l => ah_total_len (l + 1)) x.
+Definition v6x_len (x : v6exts) : N :=
+  olen ext_total_len (x_hop x) + olen ext_total_len (x_dst x)
+  + match x_route x with Some (r, f) => ext_total_len r + olen ext_total_len f | None => 0 end
+  + (if x_frag x then frag_total_len else 0)
+  + olen (fun l => ah_total_len (l + 1)) (x_auth x).
+(* the length fields are bytes *)
+Definition o8 (o : option N) : Prop := match o with Some l => l < 256 | None => True end.
+Definition v4exts_wf (x : v4exts) : Prop := o8 x.
+Definition v6exts_wf (x : v6exts) : Prop :=
+  o8 (x_hop x) /\ o8 (x_dst x) /\
+  (match x_route x with Some (r, f) => r < 256 /\ o8 f | None => True end) /\ o8 (x_auth x).
+
 (* ------------------------------------------------------------------- ARP *)
 (* RFC 826: hardware / protocol address length, 8 bit each; sender and
    target address have that same length *)
@@ -183,6 +227,13 @@ Definition build4_max (opts exts transport : N) : N :=
   field_max 16 - ipv4_hdr_len opts - exts - transport.
 Definition build6_repr (exts transport v : N) : Prop := fits 16 (exts + transport + v).
 Definition build6_max (exts transport : N) : N := field_max 16 - exts - transport.
+
+(* ------------------------------------------------------- wire encoding *)
+(* a 16 / 32 bit big-endian field as it stands in the serialised header *)
+Definition wire16 (bs : bytes) : option N :=
+  match bs with [a; b] => Some (be16 a b) | _ => None end.
+Definition wire32 (bs : bytes) : option N :=
+  match bs with [a; b; c; d] => Some (be32 a b c d) | _ => None end.
 
 (* ------------------------------------------------- executable deciders *)
 (* used by the runner to evaluate the specification on every case; each is
